@@ -5,8 +5,9 @@ set -e
 cd "$(dirname "$0")"
 export GOFLAGS=-mod=mod GOPROXY=off GOSUMDB=off GOTOOLCHAIN=local
 export GOCACHE="${GOCACHE:-$PWD/.gocache}"
-mkdir -p .build
-(cd tools/gofacts && go build -o ../../.build/gofacts . && ../../.build/gofacts /repo > ../../.build/Facts.lean && (cmp -s ../../.build/Facts.lean ../../lean/EtVerif/Gen/Facts.lean || cp ../../.build/Facts.lean ../../lean/EtVerif/Gen/Facts.lean))
+mkdir -p .build lean/EtVerif/Gen
+REPO="${VERIF_REPO:-/repo}"
+(cd tools/gofacts && go build -o ../../.build/gofacts . && ../../.build/gofacts "$REPO" > ../../.build/Facts.lean && (cmp -s ../../.build/Facts.lean ../../lean/EtVerif/Gen/Facts.lean || cp ../../.build/Facts.lean ../../lean/EtVerif/Gen/Facts.lean))
 (cd lean && lake build EtVerif etdriver $(ls EtVerif/Props/*.lean | sed 's|/|.|g; s|\.lean$||'))
 (cd harness && go build -tags verif -o ../.build/etharness.warm ./cmd/etharness && rm -f ../.build/etharness.warm)
 if [ -d tools/gofacts ]; then (cd tools/gofacts && go build -o ../../.build/gofacts.warm . && rm -f ../../.build/gofacts.warm); fi
